@@ -90,7 +90,15 @@ class SymEval:
                 v = self.ev(e.args[0])
                 return P_pow(v, 0.5) if v is not None else None
             if nm in ("numpy.sum", "sum") and e.args:
-                return P.s(f"sum({astq.src(e.args[0], 40)})")
+                a0 = e.args[0]
+                # prefix sum  sum(X[:k])  ->  psum[X,k]   (psum[X,k+1] - psum[X,k] = X[k])
+                if isinstance(a0, ast.Subscript) and isinstance(a0.slice, ast.Slice) and a0.slice.lower is None and a0.slice.step is None and a0.slice.upper is not None:
+                    k = self.ev(a0.slice.upper)
+                    if k is not None:
+                        if k == P.c(0):
+                            return P.c(0)
+                        return P.s(f"psum[{astq.src(a0.value, 40)},{k!r}]")
+                return P.s(f"sum({astq.src(a0, 40)})")
             if self.atoms and e.args:
                 short = {"numpy.abs": "abs", "abs": "abs", "numpy.absolute": "abs", "numpy.real": "re", "numpy.imag": "im", "numpy.log": "log",
                          "numpy.exp": "exp", "numpy.conj": "conj", "numpy.conjugate": "conj", "numpy.sqrt": None}.get(nm)
@@ -109,6 +117,18 @@ class SymEval:
             if isinstance(e.value, ast.Attribute) and e.value.attr == "shape":
                 idx = e.slice
                 if isinstance(idx, ast.Constant):
+                    base = e.value.value
+                    alloc = base
+                    if isinstance(base, ast.Name) and base.id not in self.stop:
+                        alloc = astq.unique_def(self.amap, base.id)
+                    while isinstance(alloc, ast.Call) and isinstance(alloc.func, ast.Attribute) and alloc.func.attr in ("astype", "copy"):
+                        alloc = alloc.func.value
+                    if isinstance(alloc, ast.Call) and astq.callee_name(self.prog, self.fi, alloc) in ("numpy.zeros", "numpy.ones", "numpy.empty", "numpy.full") and alloc.args \
+                            and isinstance(alloc.args[0], ast.Tuple) and isinstance(idx.value, int) and 0 <= idx.value < len(alloc.args[0].elts) \
+                            and not any(isinstance(x, ast.Starred) for x in alloc.args[0].elts):
+                        r = self.ev(alloc.args[0].elts[idx.value])
+                        if r is not None:
+                            return r
                     return P.s(f"{astq.src(e.value.value, 40)}.shape[{idx.value}]")
             return P.s(astq.src(e, 60).replace(" ", ""))
         if isinstance(e, ast.Attribute) and self.atoms and e.attr in ("real", "imag"):
@@ -141,7 +161,10 @@ def range_args(se, call):
 RANGE_NAMES = {"range", "tqdm.trange", "numpy.arange"}
 
 
-def is_range(prog, fi, e):
+def is_range(prog, fi, e, _depth=0):
+    if isinstance(e, ast.Name) and _depth < 3:
+        d = astq.unique_def(astq.assignments(fi), e.id)
+        return is_range(prog, fi, d, _depth + 1) if d is not None else None
     if isinstance(e, ast.Call):
         nm = astq.callee_name(prog, fi, e)
         if nm in RANGE_NAMES:
